@@ -115,7 +115,7 @@ NativeF == [tag  |-> [x \in {"L", "O", "GS", "GM"} |-> CASE x = "L" -> "GS" [] x
 FromF   == [tag  |-> [x \in {"L", "O", "GS", "GM"} |-> CASE x = "GS" -> "L" [] x = "GM" -> "O" [] OTHER -> x],
             deep |-> [x \in {"L", "O", "GS", "GM"} |-> x \in {"GS", "GM"}]]
 
-RECURSIVE CopyVal(_, _, _), CopySeq(_, _, _, _)
+RECURSIVE CopyVal(_, _, _), CopyAt(_, _, _, _), CopySeq(_, _, _, _)
 CopyVal(h, v, f) ==
   IF v.k # "ref" THEN <<h, v>>
   ELSE IF ~f.deep[h[v.v].t] THEN <<h, v>>
@@ -123,9 +123,15 @@ CopyVal(h, v, f) ==
            s  == CopySeq(h, c.e, <<>>, f)
            h2 == Append(s[1], Cell(f.tag[c.t], s[2]))
        IN <<h2, Ref(Len(h2))>>
+\* copy the elements at the positions P (ascending); the recursion depth is the number of copied
+\* containers, not the length of the sequence
+CopyAt(h, es, P, f) ==
+  IF P = {} THEN <<h, es>>
+  ELSE LET i == CHOOSE x \in P : \A y \in P : x <= y
+           s == CopyVal(h, es[i], f)
+       IN CopyAt(s[1], [es EXCEPT ![i] = s[2]], P \ {i}, f)
 CopySeq(h, es, acc, f) ==
-  IF es = <<>> THEN <<h, acc>>
-  ELSE LET s == CopyVal(h, Head(es), f) IN CopySeq(s[1], Tail(es), Append(acc, s[2]), f)
+  CopyAt(h, es, {i \in DOMAIN es : es[i].k = "ref" /\ f.deep[h[es[i].v].t]}, f)
 
 \* number of cells a deep copy of value v allocates
 RECURSIVE CopySize(_, _, _)
@@ -143,11 +149,9 @@ RemoveAt(s, i) == SubSeq(s, 1, i - 1) \o SubSeq(s, i + 1, Len(s))      \* 1-base
 InsertAt(s, i, x) == SubSeq(s, 1, i - 1) \o <<x>> \o SubSeq(s, i, Len(s)) \* before 1-based i
 Rev(s) == [i \in 1..Len(s) |-> s[Len(s) + 1 - i]]
 \* remove the 0-based indices in set I
-RemoveAll(s, I) == LET keep == {i \in 1..Len(s) : (i - 1) \notin I}
-                       RECURSIVE Build(_, _)
-                       Build(i, acc) == IF i > Len(s) THEN acc
-                                        ELSE Build(i + 1, IF i \in keep THEN Append(acc, s[i]) ELSE acc)
-                   IN Build(1, <<>>)
+RemoveAll(s, I) == LET idx  == [i \in 1..Len(s) |-> <<i, s[i]>>]
+                       kept == SelectSeq(idx, LAMBDA p : (p[1] - 1) \notin I)
+                   IN [j \in 1..Len(kept) |-> kept[j][2]]
 Pad(s, n) == s \o [i \in 1..(n - Len(s)) |-> Nil]     \* pad with nil up to length n
 
 Perms(S) == {f \in [1..Cardinality(S) -> S] : \A i, j \in 1..Cardinality(S) : i # j => f[i] # f[j]}
@@ -158,11 +162,8 @@ IsSortedSeq(e) == \A i \in 1..(Len(e) - 1) : e[i].v <= e[i + 1].v
 SameBag(a, b) == /\ Len(a) = Len(b)
                  /\ \A x \in Range(a) \cup Range(b) :
                       Cardinality({i \in DOMAIN a : a[i] = x}) = Cardinality({i \in DOMAIN b : b[i] = x})
-RECURSIVE InsertSorted(_, _), SortVals(_)
-InsertSorted(s, x) == IF s = <<>> THEN <<x>>
-                      ELSE IF x.v <= Head(s).v THEN <<x>> \o s
-                      ELSE <<Head(s)>> \o InsertSorted(Tail(s), x)
-SortVals(s) == IF s = <<>> THEN <<>> ELSE InsertSorted(SortVals(Tail(s)), Head(s))
+\* TLC's SortSeq (module TLC) is evaluated natively: no deep recursion on long lists
+SortVals(s) == SortSeq(s, LAMBDA a, b : a.v < b.v)
 
 (***************************************************************************)
 (* Object helpers.                                                         *)
